@@ -880,7 +880,26 @@ def target_class_name(mod):
     p.store[('heap', 'src')] = name
     in_class = z3.Bool('in_class')
     t = time.time()
-    done = exe.run('write_maybe_class_name', [Ref(('heap', 'input')), Ref(('heap', 'ss')), Ref(('heap', 'next')), Ref(('heap', 'src')), in_class], p)
+    # arguments by parameter type (the signature may be refactored: the spelling argument is redundant with the token)
+    hdr = mod.headers.get('write_maybe_class_name', '')
+    ptypes = re.findall(r'_\d+: ([^,)]+(?:<[^>]*>)?)', hdr.split('->')[0])
+    cargs = []
+    for ty in ptypes:
+        if 'StepParser' in ty:
+            cargs.append(Ref(('heap', 'input')))
+        elif 'StyleSheetTransformer' in ty:
+            cargs.append(Ref(('heap', 'ss')))
+        elif 'StepToken' in ty:
+            cargs.append(Ref(('heap', 'next')))
+        elif 'CowRcStr' in ty or 'str' in ty:
+            cargs.append(Ref(('heap', 'src')))
+        elif ty.strip() == 'bool':
+            cargs.append(in_class)
+        else:
+            raise MirUnsupported('write_maybe_class_name: parameter of type %s' % ty)
+    if not cargs:
+        raise MirUnsupported('write_maybe_class_name: header %r' % hdr[:80])
+    done = exe.run('write_maybe_class_name', cargs, p)
     obs = []
     tgt = 'write_maybe_class_name'
     ss = p.store[('heap', 'ss')]
